@@ -307,13 +307,16 @@ def apply_op(c, op):
 
 def execute(case):
     import onnx_ir as ir
-    from vlib import iso, protogen, snapshot
+    from vlib import iso, protogen, snapshot, wiring
     from vlib import universe as U
 
     try:
         mp, features = protogen.build_model(case["tape"], case.get("irv") or None, case.get("gen", 1))
         # keep the seed proto inside what IR->proto can express (no value_info for unknown names etc.)
         model = ir.from_proto(mp)
+        # the model under test starts as a deserialized proto: its wiring is first held against the proto by the
+        # independent scoping oracle (otherwise a deserializer fault would be compared with itself below)
+        wiring0 = wiring.check(mp, model)
         c = Ctx(model)
         for op in case.get("ops", []):
             if not (isinstance(op, list) and len(op) == 4):
@@ -324,6 +327,8 @@ def execute(case):
     except Exception as e:  # an edit raising is not this property's business
         return dict(failures=[], nontrivial=False, classes=[f"setup_raised_{type(e).__name__}"])
     fails = []
+    if wiring0:
+        fails.append(("deserialized-wiring/seed", f"from_proto wired the generated proto wrongly: {wiring0[0]}"[:400]))
     u = U.Universe.from_model(model)
     before_iso = iso.model_iso(model)
     snap0 = _mask(snapshot.take(u))
@@ -354,6 +359,9 @@ def execute(case):
         fails.append(("side-effect/iso", "structural description changed by serialization"))
     try:
         back = ir.from_proto(p1)
+        w1 = wiring.check(p1, back)
+        if w1:
+            fails.append(("deserialized-wiring/roundtrip", f"from_proto(to_proto(model)) is wired differently from what the proto says: {w1[0]}"[:400]))
         after_iso = iso.model_iso(back)
         d = iso.first_difference(before_iso, after_iso)
         if d:
@@ -391,3 +399,9 @@ def _mask(snap):
         else:
             out.append(rec)
     return out
+
+
+def selftest():
+    from vlib import wiring
+
+    wiring.selftest()
